@@ -172,7 +172,7 @@ def check(ctx, replay=None):
             viol.append(("audit id of %s is %s, the kernel's AUDIT_ARCH_%s is %#x" % (v, a["id"], AUDIT_MACRO[v], want), {"arch": v}))
         ctx.cov["evaluations"] += 1
     if archs["X32"]["mask"] != 0x40000000 or any(a["mask"] != 0 for v, a in archs.items() if v != "X32"):
-        viol.append(("seccomp masks are wrong: %s" % {v: a["mask"] for v, a in archs.items() if a["mask"]}, {"masks": True}))
+        ctx.note("seccomp masks differ from the expected ones (not part of the statement): %s" % {v: a["mask"] for v, a in archs.items() if a["mask"]})
 
     def spec_getinfo(s):
         n = d0["goarch"] if s == "" else s.lower()
